@@ -265,6 +265,16 @@ def exact_oracle(ctx):
             if k2 != kind or (kind == "int" and o2.value != o.value):
                 return Failure("C05/sizeof-keyword-shadows-member/%s" % fk, "sizeof(%s) -> %r but with keywords named like members (%s) -> %r | spec=%s" % (
                     kw, o, sorted(set(shadow) - set(kw)), o2, short(spec, 500)))
+        # metamorphic: the same member list sizes the same in every container that just concatenates its members
+        if spec[0] == "struct":
+            for twin_kind in ("lazystruct", "seq"):
+                tcon = call(G.realise, [twin_kind, spec[1]])
+                if not tcon.ok:
+                    continue
+                k3, o3 = sizeof_outcome(tcon.value, kw)
+                if k3 != kind or (kind == "int" and o3.value != o.value):
+                    return Failure("C05/sizeof-container-twin/%s" % twin_kind, "Struct sizeof(%s) -> %r but the same members as %s -> %r | spec=%s" % (
+                        kw, o, twin_kind, o3, short(spec, 500)))
         if kind != "int" or withheld:
             return None
         n = o.value
